@@ -394,3 +394,49 @@ def install(E, extra=None):
     E.stubs.update(BASIC)
     if extra: E.stubs.update(extra)
     return E
+
+# ---------------------------------------------------------------- boost::format at its API (constructor, operator%, str())
+# Used where the formatted text is data the program goes on to use (generated label names); the directives the
+# repository uses are %s, %d, %x with optional flags and width.
+def boost_format_stubs(E):
+    import re as _re
+    PRE = '_ZN5boost12basic_formatIcSt11char_traitsIcESaIcEE'
+    def key(p): return (p.obj, p.off)
+    def table(st):
+        t = dict(st.x.get('bfmt', {})); st.x['bfmt'] = t; return t
+    def ctor(E_, st, a):
+        table(st)[key(a[0])] = (bytes(E_.read_cstr(st, a[1])), ()); return None
+    def feed(E_, st, a):
+        name = st.x.get('_callee', '')
+        fmt, args = table(st).get(key(a[0]), (b'', ()))
+        ref = a[1]
+        if 'basic_string' in name: v = bytes(b if is_c(b) else 63 for b in Str(E_, st, ref).data())
+        elif 'IPKc' in name or 'IKPKc' in name:
+            q = E_.load(st, ref, 8, True); v = bytes(E_.read_cstr(st, q)) if isinstance(q, Ptr) and q.obj != 0 else b'(null)'
+        elif 'ImE' in name or 'IKmE' in name: v = E_.use(st, E_.load(st, ref, 8), 'format argument')
+        else: v = E_.use(st, E_.load(st, ref, 4), 'format argument')
+        table(st)[key(a[0])] = (fmt, args + (v,)); return a[0]
+    def render(fmt, args):
+        out = b''; i = 0; k = 0
+        for m in _re.finditer(rb'%([-#0 +]*)(\d*)([sdxuc%])', fmt):
+            out += fmt[i:m.start()]; i = m.end()
+            flags, width, conv = m.group(1).decode(), m.group(2).decode(), m.group(3).decode()
+            if conv == '%': out += b'%'; continue
+            v = args[k] if k < len(args) else b''; k += 1
+            if isinstance(v, bytes): s_ = v.decode('latin1')
+            elif is_c(v):
+                if conv == 'x': s_ = ('0x' if '#' in flags else '') + format(v & 0xffffffffffffffff, 'x')
+                else: s_ = str(v if v < (1 << 63) else v - (1 << 64))
+            else: s_ = '?'                  # a symbolic number inside diagnostic text
+            if width:
+                w = int(width); s_ = s_.ljust(w) if '-' in flags else s_.rjust(w, '0' if '0' in flags and conv != 's' else ' ')
+            out += s_.encode('latin1')
+        return out + fmt[i:]
+    def strf(E_, st, a):
+        fmt, args = table(st).get(key(a[1]), (b'', ()))
+        args = tuple(sgn(v & 0xffffffff, 32) if (is_c(v) and v < (1 << 32)) else v for v in args)
+        S = Str(E_, st, a[0]); S.init_local(); S.assign_bytes(list(render(fmt, args))); return a[0]
+    E.stubs[PRE + 'C2EPKc'] = ctor; E.stubs[PRE + 'C1EPKc'] = ctor
+    E.stubs[PRE + 'D2Ev'] = s_nop; E.stubs[PRE + 'D1Ev'] = s_nop
+    E.stubs['_ZNK5boost12basic_formatIcSt11char_traitsIcESaIcEE3strB5cxx11Ev'] = strf
+    E.prefix_stubs = list(E.prefix_stubs) + [(PRE + 'rm', feed)]
